@@ -34,43 +34,43 @@ META = {
 
 def check(ctx):
     v = vc.build(ctx, "R04")
-    r04_123(ctx, v)
-    r04_4(ctx, v)
-    r04_5(ctx, v)
-    r04_7(ctx, v)
-    r04_6(ctx, v)
+    ctx.run(r04_123, v)
+    ctx.run(r04_4, v)
+    ctx.run(r04_5, v)
+    ctx.run(r04_7, v)
+    ctx.run(r04_6, v)
     # "records that traverse a node" is what the index lists: the coverage rules of the index are shared with C03
     from . import c03
 
     from . import c01 as _c01
 
-    _c01.r01_8(ctx)  # --format on the selected records uses the same graph tables
+    ctx.run(_c01.r01_8)  # --format on the selected records uses the same graph tables
     from . import conv_common as _cc
 
-    _c01.r01_9(ctx, _cc.build(ctx, "R01.9"))  # and must not disturb them: records converted later in the same run share them
+    ctx.run(_c01.r01_9, _cc.build(ctx, "R01.9"))  # and must not disturb them: records converted later in the same run share them
     irun = c03.index_run(ctx, "R03")
     ctx.analysed_func(irun)
     info = c03.r03_1(ctx, irun)
-    c03.r03_2(ctx, irun, info)
-    c03.r03_3(ctx, irun, info)
+    ctx.run(c03.r03_2, irun, info)
+    ctx.run(c03.r03_3, irun, info)
     from . import c16 as _c16
     from .c19 import tag_loop as _tl, tag_regex_info as _ti
 
     _pf, _loop = _tl(ctx, "R16.1")
-    _c16.r16_1(ctx, _pf, _loop, _ti(_pf, _loop, "R16.1"))  # optional fields survive: the parser accepts the tag grammar (shared with C16)
-    _c16.r16_2(ctx, _pf, _loop)
+    ctx.run(_c16.r16_1, _pf, _loop, _ti(_pf, _loop, "R16.1"))  # optional fields survive: the parser accepts the tag grammar (shared with C16)
+    ctx.run(_c16.r16_2, _pf, _loop)
     ctx.not_decided.append("that the index itself lists the right offsets (C03) and that seek/readline return that record (pysam / text I/O contract)")
     # mechanisms this property rests on (see shared.py): a change there is reported here as well
     from . import shared as _sh
 
-    _sh.path_tokenisers(ctx)
-    _sh.gaf_reader(ctx)
-    _sh.tag_parser(ctx)
-    _sh.graph_loader(ctx)
-    _sh.contig_paths(ctx)
-    _sh.index_build(ctx)
-    _sh.cli_layer(ctx, "gaftools.cli.view")
-    _sh.cli_layer(ctx, "gaftools.cli.index")
+    ctx.run(_sh.path_tokenisers)
+    ctx.run(_sh.gaf_reader)
+    ctx.run(_sh.tag_parser)
+    ctx.run(_sh.graph_loader)
+    ctx.run(_sh.contig_paths)
+    ctx.run(_sh.index_build)
+    ctx.run(_sh.cli_layer, "gaftools.cli.view")
+    ctx.run(_sh.cli_layer, "gaftools.cli.index")
 
 
 RANK = {"sorted": 0, "set": 1, "uniq-list": 2, "sorted-dups": 3, "list": 4}
